@@ -146,7 +146,9 @@ func newConcWorld(p *Pkg, pl *ConcPayload, free bool) (*concWorld, error) {
 		// every parsed value must carry one and the same request tag, and it must be the tag of the
 		// credential the authenticator saw
 		tag := ""
-		for _, f := range strings.FieldsFunc(flat, func(r rune) bool { return !(r == '-' || r >= '0' && r <= '9' || r >= 'a' && r <= 'z' || r >= 'A' && r <= 'Z') }) {
+		for _, f := range strings.FieldsFunc(flat, func(r rune) bool {
+			return !(r == '-' || r >= '0' && r <= '9' || r >= 'a' && r <= 'z' || r >= 'A' && r <= 'Z')
+		}) {
 			if strings.HasPrefix(f, "req") {
 				t := strings.SplitN(f, "-", 2)[0]
 				if tag == "" {
@@ -352,6 +354,16 @@ func (w *concWorld) bodies(pl *ConcPayload, kinds []string) []func() {
 			out = append(out, w.specThread(pl.SpecPath, w.p.Consts["SpecFile"]))
 		case "fail":
 			out = append(out, w.failThread(pl.SpecPath))
+		case "miss":
+			i := i
+			out = append(out, func() {
+				vsched.Yield("harness:miss")
+				rec := NewRecorder()
+				w.api.ServeHTTP(rec, NewRequest("GET", fmt.Sprintf("/nowhere/%d", i), "", nil, nil))
+				if rec.Status != 404 {
+					w.problem("unrouted request answered %d", rec.Status)
+				}
+			})
 		}
 	}
 	return out
